@@ -3,7 +3,7 @@
    by the actual bits and the formal parameters by the actual values, in order ("every call site is replaced by the body of
    its definition with actuals substituted for formals") -- added to the whole-program judgement of Lang/BroadcastProofs.v. *)
 From Coq Require Import ZArith List Bool String Lia.
-From Verif Require Import Aexp BGate PyVal CastPrim Ast State GatesGen GateLib Unroll ResolveProofs Depth DepthModel ExprProofs FixProofs LoopProofs BroadcastProofs ModUnrollProofs.
+From Verif Require Import Aexp BGate PyVal CastPrim Ast State GatesGen GateLib Unroll ResolveProofs Depth DepthModel ExprProofs FixProofs ParamProofs LoopProofs BroadcastProofs ModUnrollProofs.
 Import ListNotations.
 Open Scope Z_scope.
 
@@ -41,12 +41,21 @@ Definition gq_of (qmap : list (string * bitref)) (q : qarg) : option qarg :=
 
 Definition inst_gop (pmap : list (string * pyval)) (qmap : list (string * bitref)) (op : stmt) : option stmt :=
   match op with
-  | SGate [] gname gargs gqs =>
+  | SGate mods gname gargs gqs =>
       match mapM (gq_of qmap) gqs with
-      | Some gqs' => Some (SGate [] gname (map (subst_params pmap) gargs) gqs')
+      | Some gqs' => Some (SGate mods gname (map (subst_params pmap) gargs) gqs')
       | None => None
       end
   | _ => None
+  end.
+
+(* one statement of the body, instantiated: a (possibly modified) basis gate with closed parameter expressions, unrolled as
+   Lang/ModUnrollProofs.v says *)
+Definition binst (pmap : list (string * pyval)) (qmap : list (string * bitref)) (name : string) (env : renv) (op : stmt)
+  : option (list stmt * list (list rsrc)) :=
+  match inst_gop pmap qmap op with
+  | Some op' => if negb (String.eqb (match op with SGate _ n _ _ => n | _ => "" end) name) then mod_ok env op' else None
+  | None => None
   end.
 
 Definition gop_name (op : stmt) : string := match op with SGate _ n _ _ => n | _ => "" end.
@@ -71,12 +80,9 @@ Variable f : nat.
 Variables (name : string) (pmap : list (string * pyval)) (qmap : list (string * bitref)).
 
 (* the body of the definition, statement by statement: each is instantiated and visited as the flat operation it has become *)
-Lemma gate_body_fix env body : forall s out,
+Lemma gate_body_fix env body : forall s parts,
   Regs env s ->
-  mapM (fun op => match inst_gop pmap qmap op with
-                  | Some op' => if op_ok env op' && negb (String.eqb (gop_name op) name) then Some op' else None
-                  | None => None
-                  end) body = Some out ->
+  mapM (binst pmap qmap name env) body = Some parts ->
   exists s',
     concatMM (fun op =>
        match op with
@@ -99,51 +105,70 @@ Lemma gate_body_fix env body : forall s out,
                     end);;
            visit_stmt check_only [] (S f) (SPhase (if false then mods ++ [MInv] else mods) arg' gqs')
        | _ => verr
-       end) body s = Ok ((if check_only then [] else out), s') /\ DE s s' /\ Dstep s s' (evs_of out).
+       end) body s = Ok ((if check_only then [] else List.concat (map fst parts)), s') /\ DE s s' /\
+    Dstep s s' (List.concat (map snd parts)).
 Proof.
-  induction body as [|op body IH]; intros s out R H; cbn [mapM] in H.
+  induction body as [|op body IH]; intros s parts R H; cbn [mapM] in H.
   - injection H as <-. exists s. split; [destruct check_only; reflexivity|]. split; [apply DE_refl|apply Dstep_same; reflexivity].
-  - destruct (inst_gop pmap qmap op) as [op'|] eqn:Ei; [|discriminate H].
-    destruct (op_ok env op' && negb (String.eqb (gop_name op) name)) eqn:C; [|discriminate H].
-    match type of H with match ?m with _ => _ end = _ => destruct m as [out'|] eqn:Em; [|discriminate H] end. injection H as <-.
-    apply andb_true_iff in C as [Hok Hne].
-    destruct op; try discriminate Ei. cbn [inst_gop] in Ei. destruct mods; [|discriminate Ei].
+  - destruct (binst pmap qmap name env op) as [[o e]|] eqn:Eb; [|discriminate H].
+    match type of H with match ?m with _ => _ end = _ => destruct m as [parts'|] eqn:Em; [|discriminate H] end. injection H as <-.
+    unfold binst in Eb. destruct (inst_gop pmap qmap op) as [op'|] eqn:Ei; [|discriminate Eb].
+    destruct op; try discriminate Ei. cbn [inst_gop] in Ei.
     destruct (mapM (gq_of qmap) qubits) as [gqs'|] eqn:Eq; [|discriminate Ei]. injection Ei as <-.
-    cbn [gop_name] in Hne.
-    destruct (op_fix check_only (S f) (SGate [] name0 (map (subst_params pmap) args) gqs') env s (Nat.lt_0_succ f) R Hok) as (s1 & E1 & D1 & S1).
-    destruct (IH s1 out' (Regs_DE _ _ _ R D1) eq_refl) as (s2 & E2 & D2 & S2).
+    destruct (negb (String.eqb name0 name)) eqn:Hne; [|discriminate Eb].
+    destruct (mod_fix check_only f env s (SGate mods name0 (map (subst_params pmap) args) gqs') o e R Eb) as (s1 & E1 & D1 & S1).
+    destruct (IH s1 parts' (Regs_DE _ _ _ R D1) eq_refl) as (s2 & E2 & D2 & S2).
     cbn [concatMM]. rewrite Hne. cbn [guard].
-    rewrite (bind_eq _ _ s (if check_only then [] else [SGate [] name0 (map (subst_params pmap) args) gqs']) s1).
+    rewrite (bind_eq _ _ s (if check_only then [] else o) s1).
     2:{ rewrite (bind_eq _ _ s tt s eq_refl). rewrite (bind_eq _ _ s gqs' s (mapMM_gq qmap qubits gqs' s Eq)). exact E1. }
-    rewrite (bind_eq _ _ s1 (if check_only then [] else out') s2 E2). exists s2. split; [unfold ret; destruct check_only; reflexivity|].
-    split; [eapply DE_trans; eauto|]. unfold evs_of. cbn [flat_map]. eapply Dstep_trans; eauto.
+    rewrite (bind_eq _ _ s1 (if check_only then [] else List.concat (map fst parts')) s2 E2). exists s2.
+    split; [unfold ret; destruct check_only; reflexivity|].
+    split; [eapply DE_trans; eauto|]. cbn [map List.concat fst snd]. eapply Dstep_trans; eauto.
 Qed.
 End Body.
 
 (* ---------- the call ---------- *)
-Definition call_out (env : renv) (gd : gatedef) (name : string) (vs : list pyval) (bs : list bitref) : option (list stmt) :=
+Definition call_out (env : renv) (gd : gatedef) (name : string) (vs : list pyval) (bs : list bitref)
+  : option (list stmt * list (list rsrc)) :=
   let qmap := dedup_names_last (combine (g_qubits gd) bs) in
   let pmap := fold_left (fun acc p => sset (fst p) (snd p) acc) (combine (g_params gd) vs) [] in
-  mapM (fun op => match inst_gop pmap qmap op with
-                  | Some op' => if op_ok env op' && negb (String.eqb (gop_name op) name) then Some op' else None
-                  | None => None
-                  end) (g_body gd).
+  match mapM (binst pmap qmap name env) (g_body gd) with
+  | Some parts => Some (List.concat (map fst parts), List.concat (map snd parts))
+  | None => None
+  end.
 
-Lemma eval_literals call_rec vs s : mapMM (fun e => eval0 call_rec e false None) (map ELit vs) s = Ok (vs, s).
+(* the actual parameters of a call: closed expressions, evaluated where the call stands *)
+Definition cvals (args : list expr) : option (list pyval) := mapM ceval args.
+
+Lemma cvals_eval call_rec args : forall vs s, cvals args = Some vs -> mapMM (fun e => eval0 call_rec e false None) args s = Ok (vs, s).
 Proof.
-  induction vs as [|v vs IH]; [reflexivity|]. cbn [map mapMM].
-  rewrite (bind_eq _ _ s v s eq_refl). rewrite (bind_eq _ _ s vs s IH). reflexivity.
+  unfold cvals. induction args as [|e args IH]; intros vs s H; cbn [mapM] in H.
+  - injection H as <-. reflexivity.
+  - destruct (ceval e) as [v|] eqn:Ev; [|discriminate H]. destruct (mapM ceval args) as [r|] eqn:Em; [|discriminate H]. injection H as <-.
+    cbn [mapMM].
+    assert (E0 : eval0 call_rec e false None s = Ok (v, s)).
+    { unfold eval0. rewrite (bind_eq _ _ s (v, []) s (ceval_eval call_rec e v s Ev)). reflexivity. }
+    rewrite (bind_eq _ _ s v s E0). rewrite (bind_eq _ _ s r s (IH r s eq_refl)). reflexivity.
 Qed.
 
-Lemma custom_call_fix check_only f env s name gd vs bs out :
+Lemma cvals_length args vs : cvals args = Some vs -> List.length vs = List.length args.
+Proof.
+  unfold cvals. revert vs. induction args as [|e args IH]; intros vs H; cbn [mapM] in H.
+  - injection H as <-. reflexivity.
+  - destruct (ceval e); [|discriminate H]. destruct (mapM ceval args) as [r|]; [|discriminate H]. injection H as <-.
+    cbn. now rewrite (IH r eq_refl).
+Qed.
+
+Lemma custom_call_fix check_only f env s name gd args vs bs out evs :
   Regs env s -> sget name (gates s) = Some gd -> smem name (gstack s) = false ->
+  cvals args = Some vs ->
   List.length vs = List.length (g_params gd) -> List.length bs = List.length (g_qubits gd) ->
   forallb (in_reg (e_q env)) bs = true -> distinctb [] bs = true ->
-  call_out env gd name vs bs = Some out ->
-  exists s', visit_stmt check_only [] (S (S f)) (SGate [] name (map ELit vs) (map qarg_of bs)) s
-             = Ok ((if check_only then [] else out), s') /\ DE s s' /\ Dstep s s' (evs_of out).
+  call_out env gd name vs bs = Some (out, evs) ->
+  exists s', visit_stmt check_only [] (S (S f)) (SGate [] name args (map qarg_of bs)) s
+             = Ok ((if check_only then [] else out), s') /\ DE s s' /\ Dstep s s' evs.
 Proof.
-  intros R Hg Hst Hv Hb Hin Hd Hout.
+  intros R Hg Hst Hargs Hv Hb Hin Hd Hout.
   cbn [visit_stmt visit_stmt_body]. set (vr := visit_stmt check_only [] (S f)). set (cr := visit_call check_only [] (S f)).
   unfold visit_generic_gate. cbn [collapse_mods]. rewrite (bind_eq _ _ s (VInt 1, false) s eq_refl).
   rewrite (bind_eq _ _ s s s eq_refl). rewrite (in_some_function_false env s R), andb_false_r.
@@ -152,16 +177,19 @@ Proof.
   change (Z.to_nat 1) with 1%nat. cbn [repeatM].
   set (qmap := dedup_names_last (combine (g_qubits gd) bs)).
   set (pmap := fold_left (fun acc p => sset (fst p) (snd p) acc) (combine (g_params gd) vs) []).
-  destruct (gate_body_fix check_only f name pmap qmap env (g_body gd) (gpush s name) out (Regs_gpush env s name R) Hout)
+  unfold call_out in Hout. fold qmap pmap in Hout.
+  destruct (mapM (binst pmap qmap name env) (g_body gd)) as [parts|] eqn:Ep; [|discriminate Hout]. injection Hout as <- <-.
+  destruct (gate_body_fix check_only f name pmap qmap env (g_body gd) (gpush s name) parts (Regs_gpush env s name R) Ep)
     as (s4 & E4 & D4 & S4).
-  assert (Hc : visit_custom_gate check_only vr cr name (map ELit vs) (map qarg_of bs) false s
+  set (out := List.concat (map fst parts)) in *.
+  assert (Hc : visit_custom_gate check_only vr cr name args (map qarg_of bs) false s
                = Ok ((if check_only then [] else out), gpop s4)).
   { unfold visit_custom_gate. rewrite (bind_eq _ _ s s s eq_refl). rewrite Hg.
     pose proof (get_op_bits_literals cr env s true bs R Hin Hd) as G. cbn iota in G.
     rewrite (bind_eq _ _ s bs s G).
-    rewrite map_length, Hv, Nat.eqb_refl. cbn [guard]. rewrite (bind_eq _ _ s tt s eq_refl).
+    rewrite <- (cvals_length args vs Hargs), Hv, Nat.eqb_refl. cbn [guard]. rewrite (bind_eq _ _ s tt s eq_refl).
     rewrite Hb, Nat.eqb_refl. cbn [guard]. rewrite (bind_eq _ _ s tt s eq_refl).
-    rewrite (bind_eq _ _ s vs s (eval_literals cr vs s)).
+    rewrite (bind_eq _ _ s vs s (cvals_eval cr args vs s Hargs)).
     rewrite (bind_eq _ _ s s s eq_refl). rewrite Hst. cbn [negb guard]. rewrite (bind_eq _ _ s tt s eq_refl).
     rewrite (bind_eq _ _ s tt (with_gstack s (name :: gstack s)) eq_refl).
     rewrite (bind_eq _ _ _ tt (gpush s name) eq_refl).
@@ -314,10 +342,10 @@ Qed.
 (* ---------- programs with gate definitions ---------- *)
 Definition genv := list (string * gatedef).
 
-Definition gcall_ok (env : renv) (G : genv) (stm : stmt) : option (list stmt) :=
+Definition gcall_ok (env : renv) (G : genv) (stm : stmt) : option (list stmt * list (list rsrc)) :=
   match stm with
   | SGate [] name args qs =>
-      match sget name G, mapM lit_bit qs, mapM lit_num args with
+      match sget name G, mapM lit_bit qs, cvals args with
       | Some gd, Some bs, Some vs =>
           if Nat.eqb (List.length vs) (List.length (g_params gd)) && Nat.eqb (List.length bs) (List.length (g_qubits gd)) &&
              forallb (in_reg (e_q env)) bs && distinctb [] bs
@@ -334,7 +362,7 @@ Definition gtop_step (env : renv) (G : genv) (stm : stmt) : option (renv * genv 
       then Some (env, sset name (mkGate params qubits body) G, [], []) else None
   | _ =>
       match gcall_ok env G stm with
-      | Some out => Some (env, G, out, evs_of out)
+      | Some (out, evs) => Some (env, G, out, evs)
       | None =>
           match mod_ok env stm with
           | Some (out, evs) => Some (env, G, out, evs)
@@ -353,17 +381,19 @@ Fixpoint gexpand (env : renv) (G : genv) (l : list stmt) : option (list stmt * l
       end
   end.
 
-Lemma call_out_ops env gd name vs bs out : call_out env gd name vs bs = Some out -> forallb (op_ok env) out = true.
+Lemma call_out_ops env gd name vs bs out evs : call_out env gd name vs bs = Some (out, evs) -> forallb (op_ok env) out = true.
 Proof.
-  unfold call_out. generalize (g_body gd). intros body. revert out.
-  induction body as [|op body IH]; intros out H; cbn [mapM] in H.
-  - injection H as <-. reflexivity.
-  - match type of H with match ?a with _ => _ end = _ => destruct a as [op'|] eqn:Ea; [|discriminate H] end.
-    match type of H with match ?m with _ => _ end = _ => destruct m as [out'|] eqn:Em; [|discriminate H] end. injection H as <-.
-    cbn [forallb]. rewrite (IH out' eq_refl), andb_true_r.
-    match type of Ea with match ?i with _ => _ end = _ => destruct i as [o2|]; [|discriminate Ea] end.
-    destruct (op_ok env o2) eqn:Eo; cbn [andb] in Ea; [|discriminate Ea].
-    match type of Ea with (if ?c then _ else _) = _ => destruct c; [|discriminate Ea] end. injection Ea as <-. exact Eo.
+  unfold call_out. generalize (g_body gd), (dedup_names_last (combine (g_qubits gd) bs)),
+    (fold_left (fun acc p => sset (fst p) (snd p) acc) (combine (g_params gd) vs) ([] : list (string * pyval))).
+  intros body qmap pmap H.
+  destruct (mapM (binst pmap qmap name env) body) as [parts|] eqn:Ep; [|discriminate H]. injection H as <- _.
+  revert parts Ep. induction body as [|op body IH]; intros parts Ep; cbn [mapM] in Ep.
+  - injection Ep as <-. reflexivity.
+  - destruct (binst pmap qmap name env op) as [[o e]|] eqn:Eb; [|discriminate Ep].
+    destruct (mapM (binst pmap qmap name env) body) as [parts'|] eqn:Em; [|discriminate Ep]. injection Ep as <-.
+    cbn [map List.concat fst]. rewrite forallb_app, (IH parts' eq_refl), andb_true_r.
+    unfold binst in Eb. destruct (inst_gop pmap qmap op) as [op'|]; [|discriminate Eb].
+    destruct (negb _); [|discriminate Eb]. eapply mod_ok_ops; eauto.
 Qed.
 
 Lemma ptop_fix fuel env env' s stm out evs :
@@ -410,7 +440,7 @@ Proof.
                                Dstep s s1 ev1 /\ (forall r0, wf_flat env (out ++ r0) = wf_flat env' r0) /\
                                gates s1 = G' /\ gstack s1 = []).
     { assert (Hother : (match gcall_ok env G stm with
-                        | Some out => Some (env, G, out, evs_of out)
+                        | Some (out, evs) => Some (env, G, out, evs)
                         | None => match mod_ok env stm with
                                   | Some (out, evs) => Some (env, G, out, evs)
                                   | None => match ptop_step env stm with Some (env', out, evs) => Some (env', G, out, evs) | None => None end
@@ -420,17 +450,17 @@ Proof.
                                num_qubits s1 = num_qubits s + total_qubits out /\ num_clbits s1 = num_clbits s + total_clbits out /\
                                Dstep s s1 ev1 /\ (forall r0, wf_flat env (out ++ r0) = wf_flat env' r0) /\
                                gates s1 = G' /\ gstack s1 = []).
-      { intros Eo. destruct (gcall_ok env G stm) as [out'|] eqn:Ec.
+      { intros Eo. destruct (gcall_ok env G stm) as [[out' evs']|] eqn:Ec.
         - injection Eo as <- <- <- <-. destruct stm; try discriminate Ec. cbn [gcall_ok] in Ec.
           destruct mods; [|discriminate Ec]. destruct (sget name G) as [gd|] eqn:Eg; [|discriminate Ec].
-          destruct (mapM lit_bit qubits) as [bs|] eqn:Eb; [|discriminate Ec]. destruct (mapM lit_num args) as [vs|] eqn:Ev; [|discriminate Ec].
+          destruct (mapM lit_bit qubits) as [bs|] eqn:Eb; [|discriminate Ec]. destruct (cvals args) as [vs|] eqn:Ev; [|discriminate Ec].
           match type of Ec with (if ?c then _ else _) = _ => destruct c eqn:C; [|discriminate Ec] end.
           apply andb_true_iff in C as [C Hd]. apply andb_true_iff in C as [C Hin]. apply andb_true_iff in C as [Hv Hb].
-          apply Nat.eqb_eq in Hv, Hb. apply mapM_lit_bit in Eb as ->. apply mapM_lit_num in Ev as [-> Hn].
+          apply Nat.eqb_eq in Hv, Hb. apply mapM_lit_bit in Eb as ->.
           destruct fuel as [|[|f]]; try (cbn in Hf; lia).
-          destruct (custom_call_fix false f env s name gd vs bs out' (T_regs _ _ T)) as (s1 & E1 & D1 & S1); auto.
+          destruct (custom_call_fix false f env s name gd args vs bs out' evs' (T_regs _ _ T)) as (s1 & E1 & D1 & S1); auto.
           { now rewrite HG. } { now rewrite Hst. }
-          pose proof (call_out_ops env gd name vs bs out' Ec) as Ops. destruct (total_ops env out' Ops) as [Tq Tc].
+          pose proof (call_out_ops env gd name vs bs out' evs' Ec) as Ops. destruct (total_ops env out' Ops) as [Tq Tc].
           destruct (DE_counts _ _ D1) as [Nq Nc]. destruct (gframe_DE _ _ D1) as [Fg Fs].
           exists s1. split; [exact E1|]. split; [eapply Top_DE; eauto|]. split; [lia|]. split; [lia|]. split; [exact S1|].
           split; [intros r0; now apply wf_flat_ops|]. split; congruence.
@@ -554,7 +584,7 @@ Proof.
       { intros s1 D1 Ops -> ->. destruct (total_ops env out Ops) as [Tq Tc]. destruct (DE_counts _ _ D1) as [Nq Nc].
         destruct (gframe_DE _ _ D1) as [Fg Fs]. split; [eapply Top_DE; eauto|]. split; [lia|]. split; [lia|]. split; congruence. }
       assert (Hother : (match gcall_ok env G stm with
-                        | Some out => Some (env, G, out, evs_of out)
+                        | Some (out, evs) => Some (env, G, out, evs)
                         | None => match mod_ok env stm with
                                   | Some (out, evs) => Some (env, G, out, evs)
                                   | None => match ptop_step env stm with Some (env', out, evs) => Some (env', G, out, evs) | None => None end
@@ -563,15 +593,15 @@ Proof.
                        exists s1, visit_stmt true [] fuel stm s = Ok ([], s1) /\ Top env' s1 /\
                                num_qubits s1 = num_qubits s + total_qubits out /\ num_clbits s1 = num_clbits s + total_clbits out /\
                                gates s1 = G' /\ gstack s1 = []).
-      { intros Eo. destruct (gcall_ok env G stm) as [out'|] eqn:Ec.
+      { intros Eo. destruct (gcall_ok env G stm) as [[out' evs']|] eqn:Ec.
         - injection Eo as <- <- <- <-. destruct stm; try discriminate Ec. cbn [gcall_ok] in Ec.
           destruct mods; [|discriminate Ec]. destruct (sget name G) as [gd|] eqn:Eg; [|discriminate Ec].
-          destruct (mapM lit_bit qubits) as [bs|] eqn:Eb; [|discriminate Ec]. destruct (mapM lit_num args) as [vs|] eqn:Ev; [|discriminate Ec].
+          destruct (mapM lit_bit qubits) as [bs|] eqn:Eb; [|discriminate Ec]. destruct (cvals args) as [vs|] eqn:Ev; [|discriminate Ec].
           match type of Ec with (if ?c then _ else _) = _ => destruct c eqn:C; [|discriminate Ec] end.
           apply andb_true_iff in C as [C Hd]. apply andb_true_iff in C as [C Hin]. apply andb_true_iff in C as [Hv Hb].
-          apply Nat.eqb_eq in Hv, Hb. apply mapM_lit_bit in Eb as ->. apply mapM_lit_num in Ev as [-> Hn].
+          apply Nat.eqb_eq in Hv, Hb. apply mapM_lit_bit in Eb as ->.
           destruct fuel as [|[|f]]; try (cbn in Hf; lia).
-          destruct (custom_call_fix true f env s name gd vs bs out' (T_regs _ _ T)) as (s1 & E1 & D1 & S1); auto.
+          destruct (custom_call_fix true f env s name gd args vs bs out' evs' (T_regs _ _ T)) as (s1 & E1 & D1 & S1); auto.
           { now rewrite HG. } { now rewrite Hst. }
           exists s1. split; [exact E1|]. apply HDE; auto. eapply call_out_ops; eauto.
         - destruct (mod_ok env stm) as [[mo me]|] eqn:Emo.
